@@ -17,6 +17,16 @@ def seed_for(prop, batch_seed, i):
 
 _MACHINE = None
 
+def _init_worker():
+    """Address-space limit per worker: an operation that tries to allocate tens of GB (seen: 20 GB
+    in one C10 run) gets a MemoryError instead of having the kernel kill the worker."""
+    try:
+        import resource
+        lim = int(os.environ.get('VERIF_MEM_GB', '6')) << 30
+        resource.setrlimit(resource.RLIMIT_AS, (lim, lim))
+    except Exception:
+        pass
+
 def _worker_run(task):
     i, seed_i, tier = task
     m = _MACHINE
@@ -135,36 +145,73 @@ def main(machine, argv=None):
     done = 0
     ctx = multiprocessing.get_context('fork')
     deadline = t0 + wall
-    with ProcessPoolExecutor(args.workers, mp_context=ctx) as ex:
-        it = iter(tasks)
-        pending = set()
+    from concurrent.futures.process import BrokenProcessPool
+    it = iter(tasks)
+    requeue = []                 # tasks that were in flight when a worker died
+    strikes = {}                 # task index -> number of pool breakages it was in flight for
+    pool_breaks = 0
+    while True:
+        ex = ProcessPoolExecutor(args.workers, mp_context=ctx, initializer=_init_worker)
+        pending = {}
+        broken = False
         def submit_some():
-            while len(pending) < args.workers * 3 and time.time() < deadline:
-                try:
-                    t = next(it)
-                except StopIteration:
-                    return
-                pending.add(ex.submit(_worker_run, t))
-        submit_some()
-        while pending:
-            for fut in as_completed(list(pending)):
-                pending.discard(fut)
-                r = fut.result()
-                done += 1
-                st = r.get('status', 'ok')
-                if st == 'harness-error':
-                    harness_errors.append(r)
-                elif st == 'inconclusive':
-                    inconclusive += 1
+            while len(pending) < args.workers * 3:
+                if requeue:
+                    t = requeue.pop()
+                elif time.time() < deadline:
+                    try:
+                        t = next(it)
+                    except StopIteration:
+                        return
                 else:
-                    merge_stats(agg, r.get('stats', {}))
-                    digests[r['i']] = r.get('digest')
-                    for v in r.get('violations', []):
-                        violations.append((r, v))
-                    if 'sample' in r and len(samples) < 3:
-                        samples.append(machine.sample_view(r['sample']))
-                submit_some()
-                break
+                    return
+                pending[ex.submit(_worker_run, t)] = t
+        try:
+            submit_some()
+            while pending:
+                for fut in as_completed(list(pending)):
+                    t = pending.pop(fut)
+                    try:
+                        r = fut.result()
+                    except BrokenProcessPool:
+                        # a worker died (out of memory, stack overflow in C): every task in flight is
+                        # re-queued once; a task that was in flight for two breakages is given up
+                        broken = True
+                        for tt in [t] + list(pending.values()):
+                            strikes[tt[0]] = strikes.get(tt[0], 0) + 1
+                            if strikes[tt[0]] >= 2:
+                                inconclusive += 1
+                                done += 1
+                            else:
+                                requeue.append(tt)
+                        pending.clear()
+                        break
+                    done += 1
+                    st = r.get('status', 'ok')
+                    if st == 'harness-error':
+                        harness_errors.append(r)
+                    elif st == 'inconclusive':
+                        inconclusive += 1
+                    else:
+                        merge_stats(agg, r.get('stats', {}))
+                        digests[r['i']] = r.get('digest')
+                        for v in r.get('violations', []):
+                            violations.append((r, v))
+                        if 'sample' in r and len(samples) < 3:
+                            samples.append(machine.sample_view(r['sample']))
+                    submit_some()
+                    break
+                if broken:
+                    break
+        finally:
+            ex.shutdown(wait=not broken, cancel_futures=True)
+        if not broken:
+            break
+        pool_breaks += 1
+        if pool_breaks > 8:
+            print('HARNESS-ERROR: worker pool broke %d times' % pool_breaks)
+            harness_errors.append({'error': 'worker pool broke repeatedly'})
+            break
     run_s = time.time() - t0
     if args.dump_digests:
         with open(args.dump_digests, 'w') as f:
@@ -265,6 +312,8 @@ def main(machine, argv=None):
         cov['runs_per_hour'] = int(ok_runs / max(run_s, 1e-9) * 3600)
         cov['seeds'] = {'batch_seed': seed, 'first_run': args.first, 'runs_submitted': done, 'derivation': 'sha256(property/batch_seed/i)[:8]'}
         cov['inconclusive_runs'] = inconclusive
+        cov['worker_pool_breakages'] = pool_breaks
+        cov['operations_that_hit_the_address_space_limit'] = sorted(set(agg.get('world', {}).get('memory_errors', [])))
         cov['setup_s'] = round(setup_s, 2)
         cov['known_findings_seen'] = {kid: c for kid, (k, c) in known_hit.items()}
         cov['tree_digest'] = env.tree_digest()
